@@ -399,6 +399,9 @@ func (x *Exec) applyContractR(fr *Frame, st *State, callee *ssa.Function, fc *Fu
 			x.bindingError(fmt.Sprintf("ensures %q of %s", e.Src, fc.Key), err.Error(), e.File, e.Line)
 			continue
 		}
+		if e.hasTag("assumed") {
+			x.trusted["assumed post-condition (ghost channel semantics, not proved) of "+shortPkg(fc.Pkg)+"."+fc.Key+": "+e.Src] = true
+		}
 		x.assume(st, t)
 	}
 	return results
